@@ -130,4 +130,59 @@ def support_function_cone(search_direction, cone2origin, radius, height):
         return transform_point(cone2origin, disk_point)
     return transform_point(cone2origin, apex)
 ''', ["SILENT"]),
+    # C18-r5 repaired: projections computed up front, vertex regions tested first, all of Ericson's conjuncts kept
+    M(["C18", "C01", "C02", "C09"], "benign-triangle-regions-reordered", JO, "closest_point_triangle", "<FUNCTION>", '''
+def closest_point_triangle(a, b, c):
+    ab = b - a
+    ac = c - a
+    bc = c - b
+    bc_shorter_than_ac = bc.dot(bc) < ac.dot(ac)
+    if bc_shorter_than_ac:
+        n = np.cross(ab, bc)
+    else:
+        n = np.cross(ab, ac)
+    n_len_sq = np.dot(n, n)
+    if n_len_sq < EPSILON_SQR:
+        closest_point, closest_set = closest_point_line(a, b)
+        best_dist_sq = np.dot(closest_point, closest_point)
+        q, new_set = closest_point_line(a, c)
+        dist_sq = np.dot(q, q)
+        if dist_sq < best_dist_sq:
+            closest_point = q
+            best_dist_sq = dist_sq
+            closest_set = (new_set & 1) + ((new_set & 2) << 1)
+        q, new_set = closest_point_line(b, c)
+        dist_sq = np.dot(q, q)
+        if dist_sq < best_dist_sq:
+            closest_point = q
+            closest_set = new_set << 1
+        return (closest_point, closest_set)
+    d1 = -ab.dot(a)
+    d2 = -ac.dot(a)
+    d3 = -ab.dot(b)
+    d4 = -ac.dot(b)
+    d5 = -ab.dot(c)
+    d6 = -ac.dot(c)
+    if d1 <= 0.0 and d2 <= 0.0:
+        return (a, 1)
+    if d3 >= 0.0 and d4 <= d3:
+        return (b, 2)
+    if d6 >= 0.0 and d5 <= d6:
+        return (c, 4)
+    vc = d1 * d4 - d3 * d2
+    if vc <= 0.0 <= d1 and d3 <= 0.0:
+        v = d1 / (d1 - d3)
+        return (a + v * ab, 3)
+    vb = d5 * d2 - d1 * d6
+    if vb <= 0.0 <= d2 and d6 <= 0.0:
+        w = d2 / (d2 - d6)
+        return (a + w * ac, 5)
+    va = d3 * d6 - d5 * d4
+    d4_d3 = d4 - d3
+    d5_d6 = d5 - d6
+    if va <= 0.0 <= d4_d3 and d5_d6 >= 0.0:
+        w = d4_d3 / (d4_d3 + d5_d6)
+        return (b + w * bc, 6)
+    return (n * (a + b + c).dot(n) / (3.0 * n_len_sq), 7)
+''', ["SILENT"]),
 ]
